@@ -47,7 +47,7 @@ fn main() {
         "a datagram is dropped by the harness once either side assigned 500 further sequence numbers since its emission (quantifier: not delayed across 1024)".into(),
         "payload sizes stay within what send accepts; corruption of datagram contents is out of scope here (C03/C06)".into(),
     ];
-    let n = ctx.volume(250, 8_000, 1, 20);
+    let n = ctx.volume(250, 8_000, 4, 20);
     ctx.arm("chaos-histories", 1800.0);
     ctx.run_cases("chaos", n, |ctx, idx, rng| {
         let variant = Variant::all()[(idx % 3) as usize];
